@@ -587,6 +587,8 @@ class ExprMixin:
         return self.call(py(pf, "func"), [idx], {}, n, None)
 
     def elem_hint(self, obj):
+        if getattr(obj, "elem", None):
+            return obj.elem
         return self.elem_hints.get(str(obj.r))
 
     def get_slice(self, obj, lo, hi, n):
